@@ -405,8 +405,10 @@ def impl_prune(ford, P, d: Path):
             proj = Project(make_settings(ford, d, P["config"]))
             pre = walk_objects(proj, keys, unknown, objs)
             proj.correlate()
-            post = walk_objects(proj, keys, unknown)
+            post_objs = {}
+            post = walk_objects(proj, keys, unknown, post_objs)
             links = impl_links(proj, objs, P)
+            bind_links = impl_bind_links(post_objs, keys, P)
     except Exception as e:  # noqa
         return {"error": f"{type(e).__name__}: {e}"}
     pages = []
@@ -418,7 +420,53 @@ def impl_prune(ford, P, d: Path):
             else:
                 pages.append(i)
     pages += [keys[f.name] for f in proj.files]
-    return {"pre": pre, "post": post, "pages": sorted(pages), "unknown": unknown, "links": links}
+    return {"pre": pre, "post": post, "pages": sorted(pages), "unknown": unknown, "links": links,
+            "bind_links": bind_links}
+
+
+_MACROS = {}
+BIND_NAME_RE = re.compile(r"""<strong>\s*(?:<a\s+href=["']([^"']*)["']\s*>)?\s*([^<\s]+)\s*(?:</a>)?\s*</strong>""")
+
+
+def macros_module(page_url):
+    """`macros.html` of the FORD under test, loaded through FORD's own Jinja2 environment (its filters `relurl`,
+    `meta`, its tests and globals) - as an overlay with the loader `Documentation.__init__` installs"""
+    from translate import c05_probe as PR
+
+    if "env" not in _MACROS:
+        _MACROS["env"] = PR.template_env()
+    return _MACROS["env"].get_template("macros.html").make_module({"page_url": page_url})
+
+
+def impl_bind_links(post_objs, keys, P):
+    """The summary card of every type that survived `prune()`, rendered by the real macro `type_summary` on the real
+    objects: which binding names are links, and into the page of which type.
+    -> sorted [(type id, binding id, id of the type whose page is linked | page path)] or 'error: ...'"""
+    import pathlib
+
+    byid = G.index(P)
+    type_pages = {page_of(e): i for i, e in byid.items() if e["kind"] == "type"}
+    out = set()
+    mod = None
+    _MACROS["types_rendered"] = 0
+    for i, obj in sorted(post_objs.items()):
+        if byid[i]["kind"] != "type" or not getattr(obj, "boundprocs", None):
+            continue
+        _MACROS["types_rendered"] += 1
+        if mod is None:
+            mod = macros_module(pathlib.Path(obj.base_url) / "module" / "x.html")
+        names = {tb.name: keys.get(tb.name) for tb in obj.boundprocs if not isinstance(tb, str)}
+        try:
+            html = str(mod.type_summary(obj))
+        except Exception as ex:  # noqa: BLE001
+            return f"error: type_summary of {obj.name}: {type(ex).__name__}: {ex}"
+        for m in BIND_NAME_RE.finditer(html):
+            href, name = m.group(1), m.group(2).split("/")[-1]
+            if name not in names or href is None or "#boundprocedure-" not in href:
+                continue
+            page = href_page(href, "module") if href.startswith("..") else os.path.normpath(href.split("#")[0])
+            out.add((i, names[name], type_pages.get(page, page)))
+    return sorted(out, key=str)
 
 
 LK_RE = re.compile(r"""lk(\d+)x(\d+) <a(?:\s+href=["']([^"']*)["'])?\s*>([^<]*)</a>""")
@@ -499,13 +547,15 @@ def model_batch(drv, Ps, variant):
         if r[0] != "ok":
             out.append(None)
         else:
-            r = r + [""] * (6 - len(r))
+            r = r + [""] * (8 - len(r))
             per_page = {}
             for ent in [x for x in r[5].split(";") if x]:
                 pg, _, ids = ent.partition(":")
                 per_page[int(pg)] = sorted({int(x) for x in ids.split(".") if x})
             out.append({"survivors": parse_ids(r[1]), "visible": parse_ids(r[2]), "pages": parse_ids(r[3]),
-                        "shown": parse_ids(r[4]), "per_page": per_page})
+                        "shown": parse_ids(r[4]), "per_page": per_page,
+                        "bind_links": {g: sorted({tuple(int(x) for x in t.split(".")) for t in r[f].split(";") if t}, key=str)
+                                       for g, f in (("guarded", 6), ("unguarded", 7))}})
     # the `[[name]]` links of the doc comments of the survivors, resolved by the model: as the link extension
     # is ("asis") and with the test that the target's page is written ("repaired")
     for lv in LINK_VARIANTS:
@@ -759,7 +809,7 @@ def oracle_mode(why):
     return "page" if why.startswith("page for") else "leak"
 
 
-def prune_stream(ford, drv, rng, n, rep, stats, d, lrng=None, xrng=None):
+def prune_stream(ford, drv, rng, n, rep, stats, d, lrng=None, xrng=None, hrng=None):
     Ps = []
     for k in range(n):
         risky = (k % 4 == 3)
@@ -773,6 +823,9 @@ def prune_stream(ford, drv, rng, n, rep, stats, d, lrng=None, xrng=None):
     if lrng is not None:
         for P in Ps:
             G.decorate(P, lrng)
+    if hrng is not None:
+        # round 6: type hierarchies (appended, own rng: the cases above stay what they were)
+        Ps += [G.gen_hierarchy(hrng) for _ in range(max(1, n // 5))]
     m_asis = model_batch(drv, Ps, "asis")
     m_rep = model_batch(drv, Ps, "repaired")
     agree = {"asis": 0, "repaired": 0}
@@ -781,6 +834,8 @@ def prune_stream(ford, drv, rng, n, rep, stats, d, lrng=None, xrng=None):
     lagree = {(a, b): 0 for a in ("asis", "repaired") for b in LINK_VARIANTS}
     ldiffer = {(a, b): [] for a in ("asis", "repaired") for b in LINK_VARIANTS}
     ldiscr = 0
+    bagree = {"asis": 0, "repaired": 0}
+    bdiffer = {"asis": [], "repaired": []}
     for k, P in enumerate(Ps):
         im = impl_prune(ford, P, d)
         if "error" in im:
@@ -834,6 +889,43 @@ def prune_stream(ford, drv, rng, n, rep, stats, d, lrng=None, xrng=None):
                         "files": G.render_project(P), "project": G.strip(P)})
             if (m.get("links") or {}).get("asis") != (m.get("links") or {}).get("repaired") and name == "asis":
                 ldiscr += 1
+        # binding names that are links in type summaries (real macro on the real objects vs `bindLinksOf`)
+        bl = im["bind_links"]
+        if isinstance(bl, str):
+            rep.tie_broken(f"prune stream: rendering the type summaries of case {k} failed: {bl}",
+                           {"stream": "prune", "case": k, "files": G.render_project(P)})
+        else:
+            bstats = stats.setdefault("bind_links", {"types_rendered": 0, "links": 0, "links_into_another_type": 0,
+                                                      "model_agrees": 0, "model_differs": 0, "guard_discriminates": 0,
+                                                      "oracle_failures": 0})
+            bstats["links"] += len(bl)
+            bstats["types_rendered"] += _MACROS.get("types_rendered", 0)
+            bstats["links_into_another_type"] += sum(1 for t, b, dd in bl if t != dd)
+            for name, m in (("asis", ma), ("repaired", mr)):
+                if m["bind_links"]["guarded"] != m["bind_links"]["unguarded"] and name == "asis":
+                    bstats["guard_discriminates"] += 1
+                if [tuple(x) for x in m["bind_links"]["guarded"]] == [tuple(x) for x in bl]:
+                    bagree[name] += 1
+                elif len(bdiffer[name]) < 3:
+                    bdiffer[name].append({"stream": "prune", "case": k, "variant": name, "config": P["config"],
+                                          "bind_links [type, binding, declaring type]": {
+                                              "model (macro tests the declaring type)": m["bind_links"]["guarded"],
+                                              "model (no test)": m["bind_links"]["unguarded"], "implementation": bl},
+                                          "files": G.render_project(P), "project": G.strip(P)})
+            # oracle (statement: "links ... never point at pages of unselected entities"): the page a binding's
+            # name links into is the page of a selected type that has a page
+            bsel, _ = spec_selected(P)
+            byid_k = G.index(P)
+            for t, b, dd in bl:
+                if isinstance(dd, int) and dd in bsel and has_own_page(byid_k[dd], byid_k):
+                    continue
+                tn = byid_k[dd]["name"] if isinstance(dd, int) else dd
+                why = (f"the summary of type {byid_k[t]['name']} links the name of binding {byid_k[b]['name']} to the page of "
+                       f"{tn}, " + ("which is not selected" if isinstance(dd, int) and dd not in bsel else "which has no page"))
+                stats["oracle_failures"] += 1
+                bstats["oracle_failures"] += 1
+                rep.failing_input({"stream": "prune", "case": k, "why": why, "config": P["config"],
+                                   "files": G.render_project(P), "entity": b}, None)
         # property oracle on the real objects
         for eid, why in oracle_objects(P, post_ids, im["pages"]):
             cls = classify(P, eid, why, mode=oracle_mode(why))
@@ -864,6 +956,13 @@ def prune_stream(ford, drv, rng, n, rep, stats, d, lrng=None, xrng=None):
             rep.tie_broken(f"correspondence prune: model ({better}) and implementation differ on case {dcase['case']}",
                            dcase)
         stats["agree"] = agree
+    # binding names in type summaries: the macro as the model has it (`bound_declaration_probe_matches_model`)
+    if variant is not None and "bind_links" in stats:
+        stats["bind_links"]["model_agrees"] = bagree[variant]
+        stats["bind_links"]["model_differs"] = len(bdiffer[variant])
+        for dcase in bdiffer[variant][:3]:
+            rep.tie_broken(f"correspondence prune: the binding names the model links in type summaries and the ones the "
+                           f"real `type_summary` macro links differ on case {dcase['case']}", dcase)
     # which link extension is this: with or without the test that the target's page is written
     stats["link_discriminating"] = ldiscr
     lvariant = None
@@ -1337,7 +1436,8 @@ def run(tier: str, seed: int, replay: str | None = None) -> int:
     with common.scratch_dir() as d:
         (d / "p").mkdir()
         variant = prune_stream(ford, drv, rng, n_prune, rep, stats, d / "p",
-                               lrng=random.Random(seed * 15485863 + 23), xrng=random.Random(seed * 49979687 + 31))
+                               lrng=random.Random(seed * 15485863 + 23), xrng=random.Random(seed * 49979687 + 31),
+                               hrng=random.Random(seed * 86028121 + 41))
         replay_witnesses(ford, rep, d / "p", variant, stats)
         replay_link_witnesses(ford, rep, d / "p", stats)
         t0 = time.time()
@@ -1373,6 +1473,7 @@ def run(tier: str, seed: int, replay: str | None = None) -> int:
         e2e_feature_histogram=dict(sorted(stats["e2e_features"].items())),
         e2e_wall_s=stats.get("e2e_wall_s"),
         micro_histogram=stats.get("micro_histogram"),
+        binding_name_links=stats.get("bind_links"),
         witnesses={k: v for k, v in stats.items() if k.startswith("witness_")},
     )
     rep.assumptions += [
